@@ -46,6 +46,24 @@ def all_wires(sys_obj):
     return order
 
 
+_REG_PUTS = None
+
+
+def reg_puts_reset_value():
+    """does Reg.__init__ (as written today) put the reset value on q?  (read from the source, not assumed)"""
+    global _REG_PUTS
+    if _REG_PUTS is None:
+        import ast
+        src = open(os.path.join(REPO, 'py4hw', 'logic', 'storage.py')).read()
+        _REG_PUTS = False
+        for c in ast.parse(src).body:
+            if isinstance(c, ast.ClassDef) and c.name == 'Reg':
+                for m in c.body:
+                    if isinstance(m, ast.FunctionDef) and m.name == '__init__':
+                        _REG_PUTS = 'q.put(self.reset_value)' in ast.unparse(m)
+    return _REG_PUTS
+
+
 class Dump:
     def __init__(self, sys_obj, sim=None, allow_unknown=False):
         import py4hw
@@ -94,6 +112,9 @@ class Dump:
             outls = ';'.join(','.join(wi(w) for w in getattr(leaf, n)) for n in meta['outls'])
             fl = ('p' if leaf.isPropagatable() else '') + ('c' if leaf.isClockable() else '')
             self.lines.append(f"leaf {meta['lean']} | {';'.join(cfg)} | {';'.join(st)} | {ins} | {inls} | {outs} | {outls} | {fl}")
+            if k == 'Reg' and reg_puts_reset_value():
+                # Reg.__init__ puts its reset value on q (construction-time put)
+                self.lines.append(f"cons {self.wid[id(leaf.q)]} {int(leaf.reset_value)}")
 
     def schedule_lines(self, order=None, drivers=None):
         """order/drivers default to what the real simulator computed"""
